@@ -734,7 +734,9 @@ void ServerConn::handleSaslStart(const QDomElement &el, bool v2)
         if (ok) {
             saslSuccess(p.quirk("ht") == QLatin1String("no_responder") ? QByteArray() : QByteArray("responder-mac-not-modelled"));
         } else {
-            srv->conformance << QStringLiteral("HT: token MAC does not verify under any issued token for '%1'").arg(user);
+            if (p.quirk("account") != QLatin1String("other_password")) {
+                srv->conformance << QStringLiteral("HT: token MAC does not verify under the token issued to user '%1'").arg(user);
+            }
             saslFailure("not-authorized");
         }
         return;
